@@ -4,6 +4,9 @@
 //! * how many `assert!(end_ptr <= final_ptr, …)` there are (in closures too) — the per-copy guard,
 //! * whether a TOP-LEVEL `assert!(end_ptr == final_ptr, …)` statement precedes the `set_len` call.
 //! `debug_assert!`s are not counted: they vanish in release builds.
+//! * how many times the body evaluates `sep.as_ref()` (`sepEvals`): a separator whose `AsRef` answers
+//!   differently on successive calls must be read ONCE, else the buffer is sized with one answer and
+//!   filled with another. Also recorded for `join_slices` (bytes.rs) and `HipStr::join` (string.rs).
 
 use syn::visit::Visit;
 use syn::{ImplItem, Item, Stmt};
@@ -28,8 +31,12 @@ impl<'ast> Visit<'ast> for Macros {
 }
 
 fn analyse(repo: &Repo, name: &str) -> Result<String, String> {
+    analyse_in(repo, "src/bytes.rs", name, name, true)
+}
+
+fn analyse_in(repo: &Repo, path: &str, name: &str, lean_name: &str, needs_set_len: bool) -> Result<String, String> {
     use syn::spanned::Spanned;
-    let file = repo.file("src/bytes.rs")?;
+    let file = repo.file(path)?;
     for item in &file.ast.items {
         let Item::Impl(imp) = item else { continue };
         if imp.trait_.is_some() {
@@ -59,21 +66,24 @@ fn analyse(repo: &Repo, name: &str) -> Result<String, String> {
                     }
                 }
             }
-            if !seen_set_len {
+            let body = quote::quote!(#f).to_string().replace(' ', "");
+            let sep_evals = body.matches("sep.as_ref()").count();
+            if !seen_set_len && needs_set_len {
                 return Err(format!(
                     "Gen/Concat: no set_len call in {name} at {}",
                     loc(file, f.span())
                 ));
             }
             return Ok(format!(
-                "def {name} : Checks := {{ perPiece := {}, finalEq := {}, loc := \"{}\" }}\n",
+                "def {lean_name} : Checks := {{ perPiece := {}, finalEq := {}, sepEvals := {}, loc := \"{}\" }}\n",
                 m.le_asserts,
                 final_eq,
+                sep_evals,
                 loc(file, f.sig.span())
             ));
         }
     }
-    Err(format!("Gen/Concat: inherent fn {name} not found in src/bytes.rs"))
+    Err(format!("Gen/Concat: inherent fn {name} not found in {path}"))
 }
 
 pub fn generate(repo: &Repo) -> Result<Vec<GenFile>, String> {
@@ -82,6 +92,10 @@ pub fn generate(repo: &Repo) -> Result<Vec<GenFile>, String> {
     s.push_str(&analyse(repo, "concat")?);
     s.push('\n');
     s.push_str(&analyse(repo, "join")?);
+    s.push('\n');
+    s.push_str(&analyse_in(repo, "src/bytes.rs", "join_slices", "joinSlices", true)?);
+    s.push('\n');
+    s.push_str(&analyse_in(repo, "src/string.rs", "join", "strJoin", false)?);
     s.push_str("\nend HipVerif.Gen.Concat\n");
     Ok(vec![GenFile { name: "Concat.lean".into(), content: s }])
 }
